@@ -110,7 +110,7 @@ def handleC16 : List String → Option String
       let one (r : Except Err Dir) : String := match r with
         | .error e => s!"err {e.name}"
         | .ok d => s!"ok {showDir (some d)} ## {showLoaded (loadDir d)}"
-      pure (" @@ ".intercalate ((copyToAll a0 src re rt nt).map one))
+      pure (" @@ ".intercalate ((copyToAll a0 loaderPerTarget src re rt nt).map one))
   | "c16.rechunk" :: replace :: rechunk :: target :: aliased :: rid :: dt :: kind :: hdrTarget :: isz :: pfx :: cs => do
     let isz ← isz.toNat?
     let rp ← parseBool replace
